@@ -510,4 +510,345 @@ Section Seq.
     - rewrite (cdr_walk_split cd _ _ _ _ _ PN). exact WC.
   Qed.
 
+
+  (** ** Block lemmas *)
+  Lemma in_block_affine : forall loc shape k, length loc = length shape -> in_range shape k ->
+    in_block loc shape (affine (block_tr loc shape) k) = true /\ zsub (affine (block_tr loc shape) k) loc = k.
+  Proof.
+    induction loc as [|l loc IH]; intros [|sh shape] k L R; simpl in L; try discriminate; inversion R; subst; simpl.
+    - auto.
+    - destruct (IH shape l' ltac:(lia) H3) as [B Z0]. rewrite B, Z0.
+      destruct (Z.leb_spec l (l + y * 1)); [|lia]. destruct (Z.ltb_spec (l + y * 1) (l + sh)); [|lia].
+      split; [reflexivity|]. f_equal. lia.
+  Qed.
+
+  Lemma in_block_inv : forall loc shape idx, in_block loc shape idx = true ->
+    in_range shape (zsub idx loc) /\ affine (block_tr loc shape) (zsub idx loc) = idx.
+  Proof.
+    induction loc as [|l loc IH]; intros [|sh shape] [|i idx] B; simpl in B; try discriminate.
+    - split; [constructor|reflexivity].
+    - apply andb_true_iff in B. destruct B as [B1 B2]. apply andb_true_iff in B1. destruct B1 as [B0 B1].
+      apply Z.leb_le in B0. apply Z.ltb_lt in B1. destruct (IH _ _ B2) as [R A].
+      simpl. split; [constructor; [lia|exact R]|]. rewrite A. f_equal. lia.
+  Qed.
+
+  Lemma map_cell_val_encode : forall l, map (cell_val cd) (io_encode cd l) = l.
+  Proof. intros. rewrite <- (decode_cells cd EX). apply (decode_encode cd EX). Qed.
+
+  Lemma linear_nil : forall dims, h5_linear dims [] = 0.
+  Proof. destruct dims; reflexivity. Qed.
+
+  Lemma nth_all_indices_linear : forall dims n, Forall (fun x => 0 <= x) dims -> (n < length (h5_all_indices dims))%nat ->
+    in_range dims (nth n (h5_all_indices dims) []) /\ Z.to_nat (h5_linear dims (nth n (h5_all_indices dims) [])) = n.
+  Proof.
+    intros dims n F L. split.
+    - apply all_indices_In. apply nth_In. exact L.
+    - pose proof (linear_all_indices dims F) as E.
+      assert (E2 : nth n (map (h5_linear dims) (h5_all_indices dims)) (h5_linear dims []) = nth n (h5_zrange (h5_product dims)) (h5_linear dims []))
+        by (rewrite E; reflexivity).
+      rewrite map_nth in E2. rewrite E2.
+      rewrite all_indices_length in L by assumption.
+      rewrite zrange_nth by exact L. lia.
+  Qed.
+
+  (** The data produced by the hyperslab transfer is the per-index blit. *)
+  Lemma blit_refines : forall d a loc data',
+    ds_wf d -> arr_wf a -> length loc = length (ha_dims a) ->
+    length data' = length (ds_data d) ->
+    (forall k, in_range (ha_dims a) k ->
+        nth (Z.to_nat (h5_linear (ds_dims d) (affine (block_tr loc (ha_dims a)) k))) data' (io_czero cd)
+        = nth (Z.to_nat (h5_linear (ha_dims a) k)) (io_encode cd (ha_elems a)) (io_czero cd)) ->
+    (forall idx, in_range (ds_dims d) idx -> (forall k, in_range (ha_dims a) k -> idx <> affine (block_tr loc (ha_dims a)) k) ->
+        nth (Z.to_nat (h5_linear (ds_dims d) idx)) data' (io_czero cd) = nth (Z.to_nat (h5_linear (ds_dims d) idx)) (ds_data d) (io_czero cd)) ->
+    ds_view cd {| ds_dims := ds_dims d; ds_data := data' |} = blit (ds_view cd d) loc a.
+  Proof.
+    intros d a loc data' [DNE [DU DL]] [ANE [AU AL]] LL LEN EFF FRAME.
+    unfold ds_view, blit. cbn [ds_dims ds_data ha_dims ha_elems]. f_equal.
+    pose proof (u64_nonneg _ DU) as DNN.
+    apply nth_ext with (d := vzero cd) (d' := (fun idx => if in_block loc (ha_dims a) idx
+                     then nth (Z.to_nat (h5_linear (ha_dims a) (zsub idx loc))) (ha_elems a) (vzero cd)
+                     else nth (Z.to_nat (h5_linear (ds_dims d) idx)) (map (cell_val cd) (ds_data d)) (vzero cd)) []).
+    - rewrite !map_length, LEN, DL. symmetry. apply all_indices_length. exact DNN.
+    - intros n Hn. rewrite map_length in Hn.
+      assert (HL : (n < length (h5_all_indices (ds_dims d)))%nat)
+        by (rewrite all_indices_length by exact DNN; rewrite <- DL, <- LEN; exact Hn).
+      destruct (nth_all_indices_linear _ _ DNN HL) as [IR LN].
+      rewrite (map_nth (fun idx => if in_block loc (ha_dims a) idx then _ else _)).
+      set (idx := nth n (h5_all_indices (ds_dims d)) []) in *.
+      unfold vzero at 1. rewrite (map_nth (cell_val cd)).
+      destruct (in_block loc (ha_dims a) idx) eqn:IB.
+      + destruct (in_block_inv _ _ _ IB) as [KR KA].
+        rewrite <- LN. pose proof (EFF _ KR) as E1. rewrite KA in E1. unfold io_czero in E1. rewrite E1.
+        unfold vzero. rewrite <- (map_nth (cell_val cd)). rewrite map_cell_val_encode. reflexivity.
+      + rewrite <- LN at 1. pose proof (FRAME idx IR) as E1. unfold io_czero in E1. rewrite E1.
+        * unfold vzero. rewrite (map_nth (cell_val cd)). reflexivity.
+        * intros k KR E. destruct (in_block_affine loc (ha_dims a) k LL KR) as [B _]. rewrite <- E in B. congruence.
+  Qed.
+
+
+  (** ** Re-establishing the relation *)
+  Definition path_dec := list_eq_dec (list_eq_dec Z.eq_dec).
+
+  Lemma Rst_update : forall st m1 m2 p d d',
+    Rst st m1 -> st_lookup st p = Some (ODataset d) -> ds_wf d' ->
+    (forall q, af_ds m2 q = if h5path_eqb q p then Some (ds_view cd d') else af_ds m1 q) ->
+    (forall q, af_grp m2 q = af_grp m1 q) ->
+    Rst (st_update st p (ODataset d')) m2.
+  Proof.
+    intros st m1 m2 p d d' [WF [CL [D G]]] LK W' HD HG.
+    split; [|split; [|split]].
+    - intros q dq L. destruct (path_dec p q) as [E|N].
+      + subst q. rewrite (lookup_update_same _ _ _ _ LK) in L. inversion L; subst. exact W'.
+      + rewrite lookup_update_other in L by assumption. eapply WF; eauto.
+    - eapply closed_update; eauto.
+    - intros q. rewrite HD. unfold get_ds. destruct (path_dec p q) as [E|N].
+      + subst q. rewrite h5path_eqb_refl, (lookup_update_same _ _ _ _ LK). reflexivity.
+      + rewrite h5path_eqb_neq by congruence. rewrite lookup_update_other by assumption. apply D.
+    - intros q NE. rewrite HG. destruct (path_dec p q) as [E|N].
+      + subst q. rewrite (lookup_update_same _ _ _ _ LK). rewrite (G p NE), LK. split; discriminate.
+      + rewrite lookup_update_other by assumption. apply G. exact NE.
+  Qed.
+
+  Lemma prefixb_spec : forall q p, prefixb q p = true <-> exists r, p = q ++ r.
+  Proof.
+    induction q as [|x q IH]; intros p; simpl.
+    - split; [intros _; exists p; reflexivity | auto].
+    - destruct p as [|y p]; [split; [discriminate | intros [r E]; discriminate]|].
+      rewrite andb_true_iff, h5name_eqb_eq, IH. split.
+      + intros [E [r E2]]. subst. exists r. reflexivity.
+      + intros [r E]. inversion E. eauto.
+  Qed.
+
+  Lemma proper_prefixb_spec : forall q p, proper_prefixb q p = true <-> exists r, q <> [] /\ r <> [] /\ p = q ++ r.
+  Proof.
+    intros q p. unfold proper_prefixb. rewrite !andb_true_iff, !negb_true_iff, prefixb_spec. split.
+    - intros [[N1 [r E]] N2]. exists r. split; [intros X; subst q; discriminate|]. split; [|exact E].
+      intros X. subst r. rewrite app_nil_r in E. subst p. rewrite h5path_eqb_refl in N2. discriminate.
+    - intros [r [N1 [N2 E]]]. split; [split; [apply h5path_eqb_neq; exact N1 | eauto]|].
+      apply h5path_eqb_neq. intros X. subst q.
+      assert (Y : p ++ [] = p ++ r) by (rewrite app_nil_r; exact E). apply app_inv_head in Y. congruence.
+  Qed.
+
+  Lemma map_repeat' : forall {A B} (f : A -> B) x n, map f (repeat x n) = repeat (f x) n.
+  Proof. induction n; simpl; [reflexivity|]. f_equal. assumption. Qed.
+
+  Lemma ds_view_zeros : forall shape, Forall u64 shape -> ds_view cd (zeros_ds cd shape) = zeros_arr shape.
+  Proof.
+    intros shape U. unfold ds_view, zeros_ds, zeros_arr. simpl. rewrite (map_go_uint_id _ U).
+    f_equal. rewrite map_repeat'. reflexivity.
+  Qed.
+
+  Lemma Rst_new : forall st st1 m1 m2 p shape,
+    Rst st m1 -> p <> [] -> walk_post st [] p shape st1 ->
+    (forall q o, st_lookup st q = Some o -> st_lookup st1 q = Some o) ->
+    shape <> [] -> Forall u64 shape ->
+    (forall q, af_ds m2 q = if h5path_eqb q p then Some (zeros_arr shape) else af_ds m1 q) ->
+    (forall q, af_grp m2 q = af_grp m1 q || proper_prefixb q p) ->
+    Rst st1 m2.
+  Proof.
+    intros st st1 m1 m2 p shape [WF [CL [D G]]] PNE [PA [PB [PC PD]]] OLD NES U HD HG.
+    simpl in PA, PB, PC.
+    assert (CASES : forall q, q = p \/ (proper_prefixb q p = true /\ st_lookup st1 q = Some OGroup /\ q <> p)
+                              \/ (proper_prefixb q p = false /\ q <> p /\ st_lookup st1 q = st_lookup st q)).
+    { intros q. destruct (path_dec q p) as [E|N]; [left; exact E|right].
+      destruct (proper_prefixb q p) eqn:PP.
+      - left. split; [reflexivity|]. split; [|exact N]. apply proper_prefixb_spec in PP. destruct PP as [r [N1 [N2 E]]].
+        apply (PB q r N1 N2 E).
+      - right. split; [reflexivity|]. split; [exact N|]. apply PC. intros t r N1 E X. subst t.
+        destruct r as [|y r].
+        + rewrite app_nil_r in E. congruence.
+        + assert (proper_prefixb q p = true) by (apply proper_prefixb_spec; exists (y :: r); repeat split; auto; discriminate).
+          congruence. }
+    destruct (zeros_ds_wf cd shape NES U) as [ZW _].
+    split; [|split; [exact PD|split]].
+    - intros q dq L. destruct (CASES q) as [E|[[_ [LG _]]|[_ [_ LS]]]].
+      + subst q. rewrite PA in L. inversion L; subst. exact ZW.
+      + rewrite LG in L. discriminate.
+      + rewrite LS in L. eapply WF; eauto.
+    - intros q. rewrite HD. unfold get_ds. destruct (CASES q) as [E|[[_ [LG N]]|[_ [N LS]]]].
+      + subst q. rewrite h5path_eqb_refl, PA. simpl. rewrite ds_view_zeros by assumption. reflexivity.
+      + rewrite h5path_eqb_neq by assumption. rewrite LG, D. unfold get_ds.
+        destruct (st_lookup st q) as [[|dq]|] eqn:LQ; try reflexivity.
+        rewrite (OLD _ _ LQ) in LG. discriminate.
+      + rewrite h5path_eqb_neq by assumption. rewrite LS. apply D.
+    - intros q NE. rewrite HG. destruct (CASES q) as [E|[[PP [LG N]]|[PP [N LS]]]].
+      + subst q. assert (PF : proper_prefixb p p = false).
+        { unfold proper_prefixb. rewrite h5path_eqb_refl. simpl. rewrite andb_false_r. reflexivity. }
+        rewrite PF, orb_false_r, PA.
+        assert (GF : af_grp m1 p = false).
+        { destruct (af_grp m1 p) eqn:E; [|reflexivity]. apply (G p NE) in E. rewrite (OLD _ _ E) in PA. discriminate. }
+        rewrite GF. split; discriminate.
+      + rewrite PP, orb_true_r, LG. split; reflexivity.
+      + rewrite PP, orb_false_r, LS. apply G. exact NE.
+  Qed.
+
+
+  (** ** One step *)
+  Lemma R_open_or_new : forall f m, R f m -> Rst (open_or_new f) m.
+  Proof. intros [st|] m H; simpl; [exact H | apply R_none_empty; exact H]. Qed.
+
+  Lemma Rst_ds : forall st m p, Rst st m ->
+    af_ds m p = match st_lookup st p with Some (ODataset d) => Some (ds_view cd d) | _ => None end.
+  Proof.
+    intros st m p [_ [_ [D _]]]. rewrite D. unfold get_ds. destruct (st_lookup st p) as [[|d]|]; reflexivity.
+  Qed.
+
+  Definition refines_step (f : @h5file C) (m : afile) (o : sop) : Prop :=
+    exists f', io_step cd f (to_op o) = (f', snd (a_step m o)) /\ R f' (fst (a_step m o)).
+
+  Lemma step_create : forall f m s p shape, R f m -> sop_ok m (SCreate s p shape) -> refines_step f m (SCreate s p shape).
+  Proof.
+    intros f m s p shape RF [PN [NES U]]. unfold refines_step.
+    pose proof (R_open_or_new _ _ RF) as RS. pose proof RS as [WF [CL _]].
+    pose proof (ocd_full _ s p shape WF CL PN NES U) as OF.
+    simpl io_step. unfold io_create. simpl h_dataset. simpl a_step.
+    rewrite (Rst_ds _ _ p RS). rewrite (creatable_walk_ok _ _ RS).
+    destruct (st_lookup (open_or_new f) p) as [[|d0]|] eqn:LK.
+    1,3: destruct (walk_ok (open_or_new f) [] p);
+      [ destruct OF as [st1 [O P]]; rewrite O;
+        pose proof (ocd_spec cd _ _ _ _ _ _ WF PN NES U O) as [_ [OLD _]];
+        eexists; split; [reflexivity|]; simpl;
+        destruct PN as [PNE _];
+        eapply (Rst_new _ _ _ _ _ _ RS PNE P OLD NES U); intros q; reflexivity
+      | rewrite OF; eexists; split; [reflexivity | exact RS] ].
+    rewrite OF. cbn [ds_view ha_dims]. destruct (zlist_eqb (ds_dims d0) shape); eexists; (split; [reflexivity | exact RS]).
+  Qed.
+
+  Lemma write_data : forall (st1 : store) p d a,
+    st_lookup st1 p = Some (ODataset d) -> ds_wf d -> ds_dims d = ha_dims a -> arr_wf a ->
+    h5_transfer (io_czero cd) (io_encode cd (ha_elems a)) (ds_dims d) SelAll (ds_data d) (ds_dims d) SelAll
+      = Some (io_encode cd (ha_elems a))
+    /\ ds_wf {| ds_dims := ds_dims d; ds_data := io_encode cd (ha_elems a) |}
+    /\ ds_view cd {| ds_dims := ds_dims d; ds_data := io_encode cd (ha_elems a) |} = a.
+  Proof.
+    intros st1 p d a LK [DNE [DU DL]] DE [ANE [AU AL]].
+    split; [|split].
+    - apply (transfer_all_read cd); [apply u64_nonneg; exact DU | | exact DL].
+      rewrite (encode_length cd EX), DE. exact AL.
+    - unfold ds_wf. simpl. repeat split; auto. rewrite (encode_length cd EX), DE. exact AL.
+    - unfold ds_view. simpl. rewrite map_cell_val_encode, DE. destruct a; reflexivity.
+  Qed.
+
+  Lemma step_write : forall f m s p a, R f m -> sop_ok m (SWrite s p a) -> refines_step f m (SWrite s p a).
+  Proof.
+    intros f m s p a RF [PN [AW NEE]]. unfold refines_step.
+    pose proof AW as [ANE [AU AL]].
+    pose proof (R_open_or_new _ _ RF) as RS. pose proof RS as [WF [CL _]].
+    pose proof (ocd_full _ s p (ha_dims a) WF CL PN ANE AU) as OF.
+    simpl io_step. unfold io_write. simpl h_dataset. simpl a_step.
+    destruct (ha_elems a) as [|v0 vs] eqn:HE; [congruence|]. rewrite <- HE in *.
+    rewrite (Rst_ds _ _ p RS). rewrite (creatable_walk_ok _ _ RS).
+    destruct (st_lookup (open_or_new f) p) as [[|d0]|] eqn:LK.
+    1,3: destruct (walk_ok (open_or_new f) [] p);
+      [ destruct OF as [st1 [O P]]; rewrite O;
+        pose proof (ocd_spec cd _ _ _ _ _ _ WF PN ANE AU O) as [_ [OLD _]];
+        pose proof P as [PA _]; simpl in PA; rewrite PA;
+        destruct (zeros_ds_wf cd _ ANE AU) as [ZW ZD];
+        destruct (write_data _ _ _ _ PA ZW ZD AW) as [T [W' VW]];
+        rewrite T; eexists; split; [reflexivity|]; cbn [fst R];
+        assert (RS1 : Rst st1 (a_put m p (zeros_arr (ha_dims a)) true))
+          by (destruct PN as [PNE _]; eapply (Rst_new _ _ _ _ _ _ RS PNE P OLD ANE AU); intros q; reflexivity);
+        eapply (Rst_update _ _ _ _ _ _ RS1 PA W');
+        [ intros q; rewrite VW; simpl; destruct (h5path_eqb q p); reflexivity | intros q; reflexivity ]
+      | rewrite OF; eexists; split; [reflexivity | exact RS] ].
+    rewrite OF. cbn [ds_view ha_dims].
+    destruct (zlist_eqb (ds_dims d0) (ha_dims a)) eqn:ZE.
+    - apply zlist_eqb_eq in ZE. rewrite LK.
+      destruct (write_data _ _ _ _ LK (WF _ _ LK) ZE AW) as [T [W' VW]].
+      rewrite T. eexists. split; [reflexivity|]. cbn [fst R].
+      eapply (Rst_update _ _ _ _ _ _ RS LK W'); [intros q; rewrite VW; reflexivity | intros q; simpl; rewrite orb_false_r; reflexivity].
+    - eexists. split; [reflexivity | exact RS].
+  Qed.
+
+
+  Lemma step_write_slice : forall f m s p a loc, R f m -> sop_ok m (SWriteSlice s p a loc) ->
+    refines_step f m (SWriteSlice s p a loc).
+  Proof.
+    intros f m s p a loc RF [PN [AW [LL [LU BF]]]]. unfold refines_step.
+    simpl a_step. destruct f as [st|].
+    - pose proof RF as RS. simpl in RS. pose proof RS as [WF [CL _]].
+      rewrite (Rst_ds _ _ p RS) in *.
+      destruct (st_lookup st p) as [[|d]|] eqn:LK.
+      1,3: simpl io_step; unfold io_write_slice; simpl h_dataset;
+           rewrite (plain_open_dataset _ _ _ PN), LK; eexists; split; [reflexivity | exact RF].
+      specialize (BF _ eq_refl). cbn [ds_view ha_dims] in BF.
+      destruct (write_slice_spec cd EX st s p d a loc WF PN LK AW LL LU BF) as [data' [W [LEN [EFF FR]]]].
+      unfold io_step, to_op. rewrite W. eexists. split; [reflexivity|]. cbn [fst R].
+      assert (W' : ds_wf {| ds_dims := ds_dims d; ds_data := data' |}).
+      { destruct (WF _ _ LK) as [A [B D0]]. unfold ds_wf. simpl. repeat split; auto. rewrite LEN. exact D0. }
+      eapply (Rst_update _ _ _ _ _ _ RS LK W').
+      + intros q. rewrite (blit_refines d a loc data' (WF _ _ LK) AW LL LEN EFF FR). reflexivity.
+      + intros q. simpl. rewrite orb_false_r. reflexivity.
+    - destruct RF as [D G]. rewrite D. simpl. eexists. split; [reflexivity|]. split; assumption.
+  Qed.
+
+  Lemma load_whole_gen : forall st s p d sl,
+    h5_open_dataset st [] s = Some (p, d) -> ds_wf d -> has_selection sl = false ->
+    io_load cd (Some st) {| h_dataset := s; h_slice := sl |} = IoRet (Some (ds_view cd d)) false.
+  Proof.
+    intros st s p d sl O W HS.
+    pose proof (load_whole cd EX st s p d O W) as L. unfold io_load in *. simpl h_dataset in *. simpl h_slice in *.
+    rewrite O in *. rewrite HS. simpl in L. exact L.
+  Qed.
+
+  Lemma step_load : forall f m s p sl, R f m -> sop_ok m (SLoad s p sl) -> refines_step f m (SLoad s p sl).
+  Proof.
+    intros f m s p sl RF [PN SW]. unfold refines_step. simpl io_step. simpl a_step.
+    destruct f as [st|].
+    - pose proof RF as RS. simpl in RS. pose proof RS as [WF _].
+      rewrite (Rst_ds _ _ p RS) in *.
+      destruct (st_lookup st p) as [[|d]|] eqn:LK.
+      1,3: unfold io_load; simpl h_dataset; rewrite (plain_open_dataset _ _ _ PN), LK; eexists; split; [reflexivity | exact RF].
+      assert (O : h5_open_dataset st [] s = Some (p, d)) by (rewrite (plain_open_dataset _ _ _ PN), LK; reflexivity).
+      destruct (has_selection sl) eqn:HS.
+      + destruct sl as [l|]; [|discriminate].
+        rewrite (load_subset_eq_memory_slice cd EX st s p d l O (WF _ _ LK) (SW _ _ eq_refl eq_refl eq_refl) HS).
+        eexists. split; [reflexivity | exact RF].
+      + rewrite (load_whole_gen st s p d sl O (WF _ _ LK) HS). eexists. split; [reflexivity | exact RF].
+    - destruct RF as [D G]. rewrite D. simpl. eexists. split; [reflexivity|]. split; assumption.
+  Qed.
+
+  Lemma step_shape : forall f m s p, R f m -> sop_ok m (SShape s p) -> refines_step f m (SShape s p).
+  Proof.
+    intros f m s p RF PN. unfold refines_step. simpl io_step. simpl a_step. simpl in PN.
+    destruct f as [st|].
+    - pose proof RF as RS. simpl in RS. pose proof RS as [WF _].
+      rewrite (Rst_ds _ _ p RS). unfold io_shape. simpl h_dataset. rewrite (plain_open_dataset _ _ _ PN).
+      destruct (st_lookup st p) as [[|d]|] eqn:LK; try (eexists; split; [reflexivity | exact RF]).
+      destruct (WF _ _ LK) as [NE _]. cbn [ds_view ha_dims]. destruct (ds_dims d); [congruence|].
+      eexists. split; [reflexivity | exact RF].
+    - destruct RF as [D G]. rewrite D. simpl. eexists. split; [reflexivity|]. split; assumption.
+  Qed.
+
+  Lemma step_refines : forall f m o, R f m -> sop_ok m o -> refines_step f m o.
+  Proof.
+    intros f m [s p shape|s p a|s p a loc|s p sl|s p] RF OK.
+    - apply step_create; assumption.
+    - apply step_write; assumption.
+    - apply step_write_slice; assumption.
+    - apply step_load; assumption.
+    - apply step_shape; assumption.
+  Qed.
+
+  (** ** Every sequence of operations refines the abstract specification. *)
+  Theorem sequences_refine_spec : forall ops f m,
+    R f m -> sops_ok m ops ->
+    exists f', io_run_ops cd f (map to_op ops) = (f', snd (a_run m ops)) /\ R f' (fst (a_run m ops)).
+  Proof.
+    induction ops as [|o ops IH]; intros f m RF OK.
+    - simpl. eexists. split; [reflexivity | exact RF].
+    - destruct OK as [OK1 OK2].
+      destruct (step_refines f m o RF OK1) as [f1 [S1 R1]].
+      destruct (IH f1 (fst (a_step m o)) R1 OK2) as [f2 [S2 R2]].
+      exists f2. simpl. rewrite S1, S2.
+      destruct (a_step m o) as [m1 b]. simpl in *. destruct (a_run m1 ops) as [m2 bs]. simpl in *.
+      split; [reflexivity | exact R2].
+  Qed.
+
+  (** Starting from a missing file and the empty specification. *)
+  Corollary sequences_refine_spec_from_nothing : forall ops,
+    sops_ok af_empty ops ->
+    exists f', io_run_ops cd None (map to_op ops) = (f', snd (a_run af_empty ops)) /\ R f' (fst (a_run af_empty ops)).
+  Proof. intros ops OK. apply sequences_refine_spec; [split; reflexivity | exact OK]. Qed.
+
 End Seq.
